@@ -280,6 +280,8 @@ def run(repo, res, tier):
     book_rules(repo, res)
     warn_rules(repo, res)
     common.run_traversals(repo, res, only={"check::specialize_nonterminals", "check::resolve_nonterminals", "check::do_get_nonterm_refs"}, rp=False)
+    from . import c02 as _c02
+    _c02.postorder(repo, res)  # a definition expanded before the definitions it uses leaves their references in place: they are then reported as Undefined (TOPO, shared with C02)
     RPL.from_grammar_order(repo, res)
     # which definitions are in the map the Unused set is initialised from: the exemptions of from_grammar are the listed ones (shared with C08 / C11)
     from vlib import rules_skips as SK, tables
